@@ -231,6 +231,54 @@ Lemma escaped_one_per_message msgs : forallb lines_ok msgs = true ->
   split_mbox_messages (mbox_file (map esc_msg msgs)) = split_result (map esc_msg msgs).
 Proof. intro H. destruct (esc_msgs_ok msgs H) as [A B]. apply roundtrip_lines; assumption. Qed.
 
+(* ------------------------------------------------------------------ the repaired split undoes the quoting *)
+Lemma unquote_escaped ls : forallb is_line ls = true ->
+  unquote_bytes (List.concat (map esc_line ls)) = List.concat ls.
+Proof.
+  intro H. unfold unquote_bytes. rewrite split_lines_concat.
+  - rewrite map_map. f_equal. rewrite <- (map_id ls) at 2. apply map_ext. intro l. apply unesc_esc.
+  - rewrite forallb_forall in *. intros x Hx. apply in_map_iff in Hx as [y [<- Hy]]. rewrite esc_is_line. apply H. exact Hy.
+Qed.
+
+Lemma mboxrd_roundtrip msgs : forallb lines_ok msgs = true ->
+  split_mbox_messages_rd (mbox_file (map esc_msg msgs)) = split_result msgs.
+Proof.
+  intro H. destruct (esc_msgs_ok msgs H) as [A B]. unfold split_mbox_messages_rd, mbox_file, split_result.
+  rewrite split_lines_concat by (apply flat_lines; exact A). rewrite collect_all by exact B.
+  f_equal. unfold bodies. rewrite !map_map. clear A B.
+  induction msgs as [|[sp b] r IH]; [reflexivity|].
+  cbn [forallb] in H. apply andb_true_iff in H as [H1 H2]. cbn [map]. rewrite IH by exact H2. f_equal.
+  unfold esc_msg. cbn [fst snd]. unfold lines_ok in H1. cbn [fst snd] in H1. apply andb_true_iff in H1 as [_ Hb].
+  rewrite unquote_escaped by exact Hb. reflexivity.
+Qed.
+
+Lemma unquote_fixed_id b : unquote_fixed b = true -> unquote_bytes b = b.
+Proof.
+  unfold unquote_fixed, unquote_bytes. intro H. rewrite <- (concat_split_lines b) at 2. f_equal.
+  rewrite <- (map_id (split_lines b)) at 2. apply map_ext_in. intros l Hl.
+  rewrite forallb_forall in H. apply str_eqb_eq. apply H. exact Hl.
+Qed.
+
+Lemma roundtrip_bytes_rd eol msgs : is_eol eol = true -> forallb (bmsg_ok_rd eol) msgs = true ->
+  split_mbox_messages_rd (mbox_concat eol msgs) = map snd msgs.
+Proof.
+  intros He H.
+  assert (H0 : forallb (bmsg_ok eol) msgs = true).
+  { rewrite forallb_forall in *. intros m Hm. specialize (H m Hm). unfold bmsg_ok_rd in H. apply andb_true_iff in H as [H _]. exact H. }
+  rewrite <- (roundtrip_bytes eol msgs He H0). unfold split_mbox_messages_rd, split_mbox_messages.
+  rewrite concat_lines by assumption. rewrite collect_all by (apply to_lines_ok; exact H0).
+  f_equal. unfold bodies. rewrite !map_map. apply map_ext_in. intros m Hm. cbn [to_lines snd].
+  rewrite concat_split_lines. rewrite unquote_fixed_id; [reflexivity|].
+  rewrite forallb_forall in H. specialize (H m Hm). unfold bmsg_ok_rd in H. apply andb_true_iff in H as [_ H]. exact H.
+Qed.
+
+Lemma boundaries_only_at_separators_rd data :
+  (List.length (split_mbox_messages_rd data) <= count_from_lines data)%nat.
+Proof.
+  unfold split_mbox_messages_rd, count_from_lines.
+  eapply Nat.le_trans; [apply filter_length_le|]. rewrite map_length, collect_length. lia.
+Qed.
+
 (* witnesses *)
 Definition w_sep : str := s "From a@b Mon Jan  1 00:00:00 2024".
 Definition w_body_from : str := s "Subject: x" ++ [NL; NL] ++ s "line" ++ [NL] ++ s "From here on 2024" ++ [NL] ++ s "end".
@@ -257,4 +305,14 @@ Proof. vm_compute. reflexivity. Qed.
 Example bmsg_ok_satisfiable_crlf : bmsg_ok CRLF (w_sep, s "Subject: x" ++ [CR; NL; CR; NL] ++ s "body") = true.
 Proof. vm_compute. reflexivity. Qed.
 Example lines_ok_satisfiable : lines_ok w_msg_lines = true.
+Proof. vm_compute. reflexivity. Qed.
+
+Lemma unescaped_from_splits_rd :
+  exists m : bmsg, is_from_line (fst m ++ LF) = true /\ C03.Lib.nonempty (snd m) = true /\ ends_crlf (snd m) = false /\
+    bmsg_ok LF m = false /\ List.length (split_mbox_messages_rd (mbox_concat LF [m])) = 2%nat.
+Proof. exists (w_sep, w_body_from). vm_compute. repeat split; reflexivity. Qed.
+
+Example bmsg_ok_rd_satisfiable_lf : bmsg_ok_rd LF (w_sep, s "Subject: x" ++ [NL; NL] ++ s "from here 2024") = true.
+Proof. vm_compute. reflexivity. Qed.
+Example bmsg_ok_rd_satisfiable_crlf : bmsg_ok_rd CRLF (w_sep, s "Subject: x" ++ [CR; NL; CR; NL] ++ s "body") = true.
 Proof. vm_compute. reflexivity. Qed.
